@@ -113,7 +113,7 @@ def spaces(tier, variant, seed):
         LV = LV[::3]
 
     def widths(n):
-        return [None, 1, max(n - 1, 0), n, n + 3, ("*", n + 2), ("*", -(n + 2))]
+        return [None, 1, max(n - 1, 0), n, n + 3, ("*", n + 2), ("*", -(n + 2)), 260, ("*", -300)]
 
     def precs(n):
         return [None, 0, 1, n, n + 3, ("*", n + 1)]
@@ -188,7 +188,7 @@ def spaces(tier, variant, seed):
         return (conv, fs, wi, pi, al.sgn(v), n == 1)
 
     sp.append(Space("Z_vs_libc", [(c, vi) for c in "dioxX" for vi in range(len(LV))], zi_cases, zi_one,
-                    "%Z{d,i,o,x,X} (and %M): every meaningful flag subset x 7 widths x 6 precisions x values fitting a long: byte identical to libc snprintf with %l"))
+                    "%Z{d,i,o,x,X} (and %M): every meaningful flag subset x 9 widths (incl. 260 and * = -300) x 6 precisions x values fitting a long: byte identical to libc snprintf with %l"))
 
     BIG = [1 << 64, -(1 << 64), 10 ** 30 + 7, -(10 ** 30) - 7, (1 << 200) - 1, -(1 << 200), 10 ** 199, al.PAT(3)["dense"], -al.PAT(5)["dense"], M, -M - 1]
 
@@ -495,7 +495,10 @@ def spaces(tier, variant, seed):
             vs_pool["vs"] = S.v_stream_new()
         return vs_pool["vs"]
 
-    VFMT = [(b"%Zd", "z"), (b"%#Zx|%Qd", "zq"), (b"%20Zd|%-20Zd|%+.30Zd", "zzz"), (b"%d %Zo %s", "izs"), (b"%.3Ff|%Fe", "ff"), (b"%Nd", "n"), (b"%Mx %Md", "mM")]
+    VFMT = [(b"%Zd", "z"), (b"%#Zx|%Qd", "zq"), (b"%20Zd|%-20Zd|%+.30Zd", "zzz"), (b"%d %Zo %s", "izs"), (b"%.3Ff|%Fe", "ff"), (b"%Nd", "n"), (b"%Mx %Md", "mM"),
+            # fields wider than the 256-byte chunks the FILE back end writes fill characters in
+            (b"%261Zd", "z"), (b"%300Zd|%-257Zd|%0513Zd", "zzz"), (b"%.300Zd|%#600Zx", "zz"), (b"%-1000Qd|%255Zd|%256Zd", "qzz"),
+            (b"%*Zd|%-*Zd", "IzIz"), (b"%400.3Ff|%-300Fe|%0290Ff", "fff"), (b"%.270Nd", "n"), (b"%512Md|%-258Mx", "Mm")]
 
     def vf_cases(blk):
         i = blk
@@ -528,6 +531,8 @@ def spaces(tier, variant, seed):
                 args.append(c_void_p(f.p))
             elif kch == "i":
                 args.append(c_int(v & 0xFFFF))
+            elif kch == "I":
+                args.append(c_int(257 + (v & 0x1FF)))
             elif kch == "s":
                 args.append(c_char_p(b"tail"))
             elif kch == "n":
